@@ -747,3 +747,17 @@ def check(ctx):
             ctx.ob("R4", f"{key}::has-block-or-segments", n_seg > 0, f"{key}: neither a block dump nor STATV segments", str(f))
     ctx.note("NOT decided: byte-exact round trip of arbitrary blocks/version tuples through repr/hex/str/re semantics (values), and re-assembly of arbitrary segmentations of a traffic log.")
     ctx.trusted.append("re._parser / re on constants extracted from the source and on the shipped data files")
+    ctx.rule("R13", "one session, one log: the handler the tools' `logfile` command installs writes ONE file - a snapshot is eleven separate log records (header, nine version lines, the block dump) and the reader works per file, so a handler that rolls over at record boundaries (RotatingFileHandler, TimedRotatingFileHandler) can cut a snapshot in two: the header ends one file, the block dump starts the next, and the block the shell wrote parses back from neither")
+    n13 = 0
+    for fi13 in repo.all_functions():
+        if "/utils/" not in "/" + fi13.mod.rel:
+            continue
+        for n_ in walk_no_nested(fi13.node):
+            if isinstance(n_, ast.Call):
+                nm_ = ast.unparse(n_.func)
+                if nm_.split(".")[-1].endswith("FileHandler"):
+                    n13 += 1
+                    ctx.ob("R13", f"{fi13.qual}::{nm_.split('.')[-1]}::one-file", "Rotating" not in nm_,
+                           f"{fi13.qual} installs `{nm_}`: the log rolls over between two records - a snapshot (or the STATV segments of one transfer) written across the roll-over is split over two files and read back from neither",
+                           loc(fi13, n_), sample={"rule": "R13", "site": fi13.qual, "handler": nm_})
+    ctx.floor("R13", "file handlers installed by the tools", n13, 1)
